@@ -448,7 +448,7 @@ class RefLexer:
     """terms: list of Term with attribute lexname (token type as lark names it).
     Written from docs/grammar.md: at every position the first terminal in the documented order that
     matches wins; text matched by a regexp terminal that is exactly a same-priority string terminal
-    (which the regexp can spell) is reported as that string terminal."""
+    is reported as that string terminal."""
     def __init__(self, terms, ignore_names, gflags=0):
         self.order = lexer_order(terms, gflags)
         self.ignore = set(ignore_names)
@@ -461,9 +461,10 @@ class RefLexer:
                 for S in self.strs:
                     if (S.prio or 0) != (T.prio or 0):
                         continue
-                    m = T.compiled(gflags).match(S.pat[1])
-                    if m and m.group(0) == S.pat[1]:
-                        ks.append(S)
+                    # the statement has no "which the regexp can spell" condition: a case-insensitive keyword written
+                    # "SELECT"i is that keyword also when /[a-z]+/ matched "select".  (Whether the text IS the string
+                    # terminal is decided on the matched text, below.)
+                    ks.append(S)
                 self.keywords[T.lexname] = ks
 
     def lex(self, text, allowed=None, keep_ignored=False):
